@@ -23,6 +23,10 @@ fn main() {
         usage();
     }
     tool::install_panic_hook();
+    if args[1] == "pdfdump" {
+        debug_pdf_dump(&args[2]);
+        return;
+    }
     if args[1] == "replay" {
         if args.len() < 3 {
             usage();
@@ -88,5 +92,18 @@ fn replay(path: &str) -> i32 {
                 1
             }
         },
+    }
+}
+
+#[allow(dead_code)]
+pub fn debug_pdf_dump(path: &str) {
+    let text = std::fs::read_to_string(path).expect("read");
+    let txs = cgt_core::parser::parse_file(&text).expect("parse");
+    let cfg = tool::all_years_config();
+    let fx = cgt_money::load_default_cache().expect("fx");
+    let r = cgt_core::calculator::calculate(&txs, None, Some(&fx), &cfg).expect("calc");
+    let runs = cgt_formatter_pdf::verif_text_runs(&r).expect("runs");
+    for run in runs {
+        println!("p{} y={:.1} x={:.1} w={:.1} s={:.1} {:?}", run.page, run.y, run.x, run.width, run.size, run.text);
     }
 }
